@@ -443,7 +443,23 @@ func randSpec(r *common.Rand) *spec {
 	// strings that are not valid UTF-8 (Go strings are byte strings)
 	if r.Chance(1, 10) {
 		bad := func() string { return pick(r, "\xff", "\xfe", "\xc0\x80", "\xed\xa0\x80", "\xe2\x98", "\x80") }
-		switch r.Intn(3) {
+		switch r.Intn(4) {
+		case 3: // inside a caller-supplied descriptor
+			if len(sp.Layers) > 0 {
+				l := &sp.Layers[r.Intn(len(sp.Layers))]
+				switch r.Intn(3) {
+				case 0:
+					l.MediaType = "application/x" + bad()
+				case 1:
+					l.Annotations = map[string]string{"lk": "lv" + bad()}
+				default:
+					l.URLs = []string{"https://example.com/" + bad()}
+				}
+			} else if sp.Config != nil {
+				sp.Config.ArtifactType = "cfg/at" + bad()
+			} else {
+				sp.AT = "a/b" + bad()
+			}
 		case 0:
 			base := "a/b"
 			if sp.AT != "" && r.Bool() {
